@@ -4,6 +4,8 @@ import GqlgenVerif.Gen.AddUploadGuards
 import GqlgenVerif.Gen.DecodeSites
 import GqlgenVerif.Model.WsClose
 import GqlgenVerif.Gen.WsCloseReasons
+import GqlgenVerif.Model.ReqHist
+import GqlgenVerif.Gen.ParseGate
 /-! Line-protocol driver for C10: runs the `Upload` model (with the guards / decode sites regenerated
 from /repo) on the cases printed by `go/harness/c10`. -/
 open GqlgenVerif GqlgenVerif.Upload
@@ -209,6 +211,35 @@ def cfRun (n : Nat) : String :=
   | .close _ r => s!"close:4000 {r.length}"
   | _ => "dropped"
 
+open GqlgenVerif.ReqHist in
+/-- request history: `hs <cap> <apq 0|1> <class of document 0,1,2,… as p|n|i|v> <steps: x | <doc>/<-|inv|ver|h<doc>>>` -/
+def hsRun (g : Gate) (cap apq tbl steps : String) : String :=
+  let clsOf : String → QClass := fun c => if c == "p" then .parseErr else if c == "n" then .noOp else if c == "i" then .invalid else .valid
+  let table : List QClass := if tbl == "-" then [] else (tbl.splitOn ",").map clsOf
+  let cls : Nat → QClass := fun q => table.getD q .noOp
+  let stepOf : String → Option Step := fun t =>
+    if t == "x" then some .unreached else
+    match t.splitOn "/" with
+    | [q, a] =>
+      match q.toNat? with
+      | none => none
+      | some qn =>
+        if a == "-" then some (.op qn .none)
+        else if a == "inv" then some (.op qn .invalid)
+        else if a == "ver" then some (.op qn .version)
+        else if a.startsWith "h" then (a.drop 1).toNat?.map fun h => .op qn (.hash h)
+        else none
+    | _ => none
+  let cn : QClass → String := fun c => match c with | .parseErr => "parseErr" | .noOp => "noOp" | .invalid => "invalid" | .valid => "valid"
+  let outName : Out → String := fun o => match o with
+    | .parseError => "parse-error" | .noOperation => "no-operation" | .validationError => "validation-error"
+    | .run c => "run:" ++ cn c
+    | .apqNotFound => "apq-notfound" | .apqMismatch => "apq-mismatch" | .apqVersion => "apq-version" | .apqInvalid => "apq-invalid"
+    | .notReached => "x"
+  match cap.toNat?, (steps.splitOn ";").mapM stepOf with
+  | some c, some xs => ";".intercalate ((runAll g c (apq == "1") cls St.init xs).map outName)
+  | _, _ => "bad-op"
+
 /-- one line in, one line out -/
 def step (line : String) : String :=
   match line.splitOn " " with
@@ -228,6 +259,9 @@ def step (line : String) : String :=
   | ["cf", n] => match n.toNat? with
     | some k => cfRun k
     | none => "bad-op"
+  | ["hs", cap, apq, tbl, steps] => hsRun Gen.ParseGate.gate cap apq tbl steps
+  | ["hsall", cap, apq, tbl, steps] => hsRun GqlgenVerif.ReqHist.Gate.all cap apq tbl steps   -- the complete gate (search for a failing input when the regenerated one is not)
+  | ["gate"] => reprStr Gen.ParseGate.gate
   | ["guards"] => reprStr guards
   | _ => "bad-op"
 
